@@ -326,6 +326,10 @@ func runC06(c *fw.Ctx) {
 }
 
 func runC07(c *fw.Ctx) {
+	if c.Idx%160 == 33 {
+		c07parallel(c)
+		return
+	}
 	steps := 60 + c.Rng.Intn(160)
 	runCacheHistory(c, true, steps, 40)
 }
@@ -366,7 +370,7 @@ func init() {
 			return 64000
 		},
 		Run:    runC07,
-		Floors: map[string]int64{"lookups_through_caches_of_committed_blocks": 100000, "independent_empty_caches_checked": 20000, "node_objects_reused_with_an_edited_payload": 50000, "late_writes_into_committed_block_caches": 20000, "late_removals_into_committed_block_caches": 2000, "repeated_commits_of_a_committed_block_cache": 5000, "trees": 50000, "lookups": 3000000, "hits": 100000, "misses": 50000, "removals": 5000, "abandoned": 5000, "must_hit_assertions": 500000},
+		Floors: map[string]int64{"parallel_runs_of_unrelated_caches": 300, "lookups_through_caches_of_committed_blocks": 100000, "independent_empty_caches_checked": 20000, "node_objects_reused_with_an_edited_payload": 50000, "late_writes_into_committed_block_caches": 20000, "late_removals_into_committed_block_caches": 2000, "repeated_commits_of_a_committed_block_cache": 5000, "trees": 50000, "lookups": 3000000, "hits": 100000, "misses": 50000, "removals": 5000, "abandoned": 5000, "must_hit_assertions": 500000},
 		Assumptions: []string{
 			"must-hit assertions only within capacity (see rule); elsewhere miss-or-right-value",
 		},
